@@ -948,7 +948,9 @@ register_init(RegisterTable *t) /* NOLINT */
             BIT_CLEAR(t->flags, REG_TF_DURING_INIT);
             return rv;
         }
-        if (current < (previous + t->area[i-1].size)) {
+        /* current >= previous here; the sum previous + size would wrap around
+         * for an area reaching the top of the address space. */
+        if ((current - previous) < t->area[i-1].size) {
             rv.code = REG_INIT_AREA_ADDRESS_OVERLAP;
             rv.pos.area = i;
             BIT_CLEAR(t->flags, REG_TF_DURING_INIT);
